@@ -26,7 +26,7 @@ for p, d in per.items():
     tot[0] += d["n"]; tot[1] += d["caught"]
     rows.append("| %s | %d | %d%s | %d | %d | %d | %s |" % (p, d["n"], d["caught"], (" (" + ", ".join(d["other"]) + ")") if d["other"] else "", d["verus"], d["kani"], d["standin"],
                 ", ".join("%s (%d)" % kv for kv in d["obl"].most_common(6))))
-text = ("<!-- seeded:begin -->\n%d independently written changes (rounds 1-6), %d caught by the property's own quick check on the final machinery; "
+text = ("<!-- seeded:begin -->\n%d independently written changes (rounds 1-9), %d caught by the property's own quick check on the final machinery; "
         "every row of `seeded/README.md` names the failed obligation.\n\n" % (tot[0], tot[1])) + "\n".join(rows) + "\n<!-- seeded:end -->"
 p = os.path.join(VERIF, "DESIGN.md")
 s = open(p).read()
